@@ -390,7 +390,7 @@ func (w *World) powerLoss(r *rand.Rand) int {
 func (w *World) after(op string, paths ...string) {
 	w.trackDurability(op, paths)
 	dst := paths[len(paths)-1]
-	if mutating(op) && filepath.Dir(dst) == w.target && filepath.Base(dst) != ".registry" {
+	if mutating(op) && op != "remove" && op != "removeall" && filepath.Dir(dst) == w.target && filepath.Base(dst) != ".registry" {
 		w.placements = append(w.placements, placement{w.cur, w.ops, dst})
 		w.checkPlacement(dst)
 	}
@@ -780,6 +780,23 @@ func (w *World) install(i int) (err error) {
 	return w.runInstall(i)
 }
 
+// uninstall removes what attempt i installed through the real registry.Uninstall.
+func (w *World) uninstall(i int) (err error) {
+	w.cur, w.ops, w.crashed, w.faultFired, w.opLog = i, 0, false, false, nil
+	w.dirty = map[string]int64{}
+	simfs.Before, simfs.After = w.before, w.after
+	defer func() { simfs.Before, simfs.After = nil, nil }()
+	defer func() {
+		if r := recover(); r != nil {
+			w.violate("uninstall-panicked", fmt.Sprintf("uninstall of attempt %d panicked: %v", i, r))
+			err = fmt.Errorf("panic: %v", r)
+		}
+	}()
+	a := w.sc.Attempts[i]
+	_, err = registry.Uninstall(registry.UninstallOptions{Name: a.Conn, Version: a.Version, ConnectorsPath: w.target, InstalledBy: "sim", LockTimeout: 2 * time.Second})
+	return err
+}
+
 // runInstall: one call of registry.Install for attempt i (hooks and network are in place).
 func (w *World) runInstall(i int) (err error) {
 	a := w.sc.Attempts[i]
@@ -845,7 +862,7 @@ type Stats struct {
 	Shapes                                                      map[string]int
 	Faults                                                      map[string]int
 	Ops                                                         int
-	PowerLossPoints, UnsyncedFilesCut, TornBinaries             int
+	PowerLossPoints, UnsyncedFilesCut, TornBinaries, Uninstalls int
 	ConcRuns, ConcCrashes, ConcFaults, LockWaits, LockTimeouts  int
 	Schedules                                                   int // distinct schedules (sequences of scheduler picks) of interleaved installs
 	schedules                                                   map[uint64]bool
@@ -916,6 +933,7 @@ func RunScenario(sc *Scenario, base string, maxPoints int, only *Found, st *Stat
 	root := mkSandbox(base)
 	defer os.RemoveAll(root)
 	w := newWorld(sc, root)
+	lastInstalled := -1
 	for i, a := range sc.Attempts {
 		// snapshot of the tree before attempt i
 		pre := mkSandbox(base)
@@ -1004,9 +1022,90 @@ func RunScenario(sc *Scenario, base string, maxPoints int, only *Found, st *Stat
 			}
 		}
 		_ = os.RemoveAll(pre)
+		if err == nil {
+			lastInstalled = i
+		}
+	}
+	// ---- uninstall of the attempt installed last: clean, then every interruption of it
+	if lastInstalled >= 0 && (only == nil || strings.HasPrefix(only.Mode, "un-")) && !overBudgetOr(only) {
+		i := lastInstalled
+		pre := mkSandbox(base)
+		_ = copyTree(root, pre)
+		preW := *w
+		preW.accepted, preW.started, preW.nets = map[int][32]byte{}, map[int]bool{}, map[int]*simNet{}
+		for k, v := range w.accepted {
+			preW.accepted[k] = v
+		}
+		for k, v := range w.started {
+			preW.started[k] = v
+		}
+		for k, v := range w.nets {
+			preW.nets[k] = v
+		}
+		err := w.uninstall(i)
+		st.Runs++
+		st.Uninstalls++
+		nops := w.ops
+		w.checkTree(fmt.Sprintf("after uninstall of attempt %d (err=%v)", i, err != nil))
+		if only == nil || only.Mode == "un-clean" {
+			report(w, i, "un-clean", 0)
+		} else {
+			w.viol = nil
+		}
+		for op := 1; op <= nops; op++ {
+			for _, mode := range []string{"un-crash-before", "un-crash-after", "un-fault", "un-powerloss-before", "un-powerloss-after"} {
+				if only != nil && (only.Attempt != i || only.Mode != mode || only.Op != op) {
+					continue
+				}
+				if only == nil && overBudget() {
+					break
+				}
+				sb := mkSandbox(base)
+				_ = copyTree(pre, sb)
+				x := preW.clone(sb)
+				x.crashAt, x.faultAt = 0, 0
+				switch mode {
+				case "un-crash-before", "un-powerloss-before":
+					x.crashAt = op
+				case "un-crash-after", "un-powerloss-after":
+					x.crashAt, x.crashAfter = op, true
+				case "un-fault":
+					x.faultAt = op
+				}
+				_ = x.uninstall(i)
+				st.Runs++
+				switch {
+				case strings.HasPrefix(mode, "un-powerloss"):
+					st.PowerLossPoints++
+					st.UnsyncedFilesCut += x.powerLoss(rand.New(rand.NewPCG(uint64(sc.Seed), uint64(900001+op*7+len(mode)))))
+				case mode == "un-fault":
+					st.FaultPoints++
+					for k, v := range x.faultsInjected {
+						st.Faults[k] += v
+					}
+				default:
+					st.CrashPoints++
+				}
+				x.checkTree(fmt.Sprintf("uninstall of attempt %d interrupted: %s at file-system operation %d (%s)", i, mode, op, opAt(x.opLog, op)))
+				// the operator retries the uninstall, then installs the same version again
+				x.crashAt, x.faultAt, x.crashAfter = 0, 0, false
+				_ = x.uninstall(i)
+				st.Runs++
+				x.checkTree(fmt.Sprintf("retry of the uninstall of attempt %d after %s at operation %d", i, mode, op))
+				_ = x.install(i)
+				st.Runs++
+				x.checkTree(fmt.Sprintf("re-install of attempt %d after an interrupted uninstall (%s at operation %d)", i, mode, op))
+				st.TornBinaries += x.tornBinaries
+				report(x, i, mode, op)
+				_ = os.RemoveAll(sb)
+			}
+		}
+		_ = os.RemoveAll(pre)
 	}
 	return found
 }
+
+func overBudgetOr(only *Found) bool { return only == nil && overBudget() }
 
 func opAt(log []string, op int) string {
 	if op-1 < len(log) && op >= 1 {
